@@ -31,6 +31,8 @@ pub enum PatKind {
     SecondMount,
     /// arch/app.{}.log.gz (gzip build only)
     Gz,
+    /// arch/{}/app/foo.log: the index in an inner directory component
+    DirInner,
     /// arch/{}-$ENV{VERIF_TEAM}.log with VERIF_TEAM = "team/api": the index ends
     /// up in a directory component only after expansion
     EnvSlash,
@@ -76,6 +78,7 @@ impl Names {
                         std::env::set_var("VERIF_ARCH", &a);
                         ("$ENV{VERIF_ARCH}/app.{}.log".to_string(), format!("{}/app.{{}}.log", a), false)
                     }
+                    PatKind::DirInner => (format!("{}/{{}}/app/foo.log", a), format!("{}/{{}}/app/foo.log", a), false),
                     PatKind::EnvSlash => {
                         std::env::set_var("VERIF_TEAM", "team/api");
                         (format!("{}/{{}}-$ENV{{VERIF_TEAM}}.log", a), format!("{}/{{}}-team/api.log", a), false)
@@ -187,6 +190,17 @@ pub struct Attr {
     pub other: &'static str,
     /// appended to data signatures (fault configurations: the open mode)
     pub sig: &'static str,
+    /// a second property whose statement the same mismatch contradicts (e.g.
+    /// C17-I3 / C16-I4: where the rolled content and the triggering record end up)
+    pub also: Option<(&'static str, &'static str)>,
+}
+
+fn fail_data(sink: &Sink, at: &Attr, sig: &str, msg: String) {
+    let sig = format!("{}{}", sig, at.sig);
+    if let Some((p, i)) = at.also {
+        sink.fail(p, i, &sig, msg.clone());
+    }
+    sink.fail(at.prop, at.data, &sig, msg);
 }
 
 pub struct Model {
@@ -279,7 +293,7 @@ impl Model {
                 None => {
                     let is_arch = self.window.iter().any(|(i, _)| names.key(&names.arch(*i)) == *k);
                     if is_arch {
-                        sink.fail(at.prop, at.data, &format!("{}{}", "archive-missing", at.sig), format!("{}: archive {} ({} bytes expected) does not exist; tree: {}", when, k, want.len(), brief(&actual)));
+                        fail_data(sink, &at, "archive-missing", format!("{}: archive {} ({} bytes expected) does not exist; tree: {}", when, k, want.len(), brief(&actual)));
                     } else {
                         sink.fail(at.other_prop, at.other, "bystander-removed", format!("{}: file {} outside the managed names was removed", when, k));
                     }
@@ -290,7 +304,7 @@ impl Model {
                         match gunzip(have) {
                             Ok(p) => p,
                             Err(e) => {
-                                sink.fail(at.prop, at.data, &format!("{}{}", "archive-corrupt", at.sig), format!("{}: archive {} does not decompress: {}", when, k, e));
+                                fail_data(sink, &at, "archive-corrupt", format!("{}: archive {} does not decompress: {}", when, k, e));
                                 return false;
                             }
                         }
@@ -300,10 +314,10 @@ impl Model {
                     if &have_plain != want {
                         let is_arch = self.window.iter().any(|(i, _)| names.key(&names.arch(*i)) == *k);
                         if is_arch {
-                            sink.fail(
-                                at.prop,
-                                at.data,
-                                &format!("{}{}", "archive-content", at.sig),
+                            fail_data(
+                                sink,
+                                &at,
+                                "archive-content",
                                 format!("{}: archive {} holds {:?}, expected {:?}", when, k, frame::whole_ids(&have_plain).iter().map(|i| i.to_string()).collect::<Vec<_>>(), frame::whole_ids(want).iter().map(|i| i.to_string()).collect::<Vec<_>>()),
                             );
                         } else {
@@ -339,10 +353,10 @@ impl Model {
             false
         };
         if !ok {
-            sink.fail(
-                at.prop,
-                at.data,
-                &format!("{}{}", "active-content", at.sig),
+            fail_data(
+                sink,
+                &at,
+                "active-content",
                 format!(
                     "{}: active file holds {:?} ({} bytes), expected {:?} ({} bytes){}; tree: {}",
                     when,
